@@ -148,7 +148,7 @@ func runHistWire(w *wireClient, notes []any, prefix string) ([]any, error) {
 	for _, n := range notes {
 		m := n.(map[string]any)
 		u0, _ := m["u"].(string)
-		u := strings.Replace(u0, "file:///w/", "file:///w/"+prefix+"/", 1)
+		u := wireURI(u0, prefix)
 		uris[u0] = true
 		switch m["k"] {
 		case "open":
@@ -176,7 +176,7 @@ func runHistWire(w *wireClient, notes []any, prefix string) ([]any, error) {
 		sort.Strings(us)
 		docs := []map[string]any{}
 		for _, k := range us {
-			res, err := w.request("verif/getDocument", map[string]any{"uri": strings.Replace(k, "file:///w/", "file:///w/"+prefix+"/", 1)})
+			res, err := w.request("verif/getDocument", map[string]any{"uri": wireURI(k, prefix)})
 			if err != nil {
 				return nil, err
 			}
@@ -188,6 +188,12 @@ func runHistWire(w *wireClient, notes []any, prefix string) ([]any, error) {
 		out = append(out, docs)
 	}
 	return out, nil
+}
+
+// wireURI makes the URIs of one history unique inside the long-lived wire-mode server.
+func wireURI(u, prefix string) string {
+	u = strings.Replace(u, "file:///w/", "file:///w/"+prefix+"/", 1)
+	return strings.Replace(u, "untitled:w/", "untitled:w/"+prefix+"/", 1)
 }
 
 func genChangeFor(c *Ctx, doc string, conforming bool) (map[string]any, string) {
@@ -241,7 +247,7 @@ func genC01(c *Ctx) {
 	}
 	// histories
 	var wireHists [][]any
-	uris := []string{"file:///w/a.journal", "file:///w/b.journal", "file:///w/c.journal"}
+	uris := []string{"file:///w/a.journal", "untitled:w/Untitled-1", "file:///w/c.journal"}
 	for i := 0; i < c.N(1200, 40000); i++ {
 		nu := 1 + r.IntN(3)
 		cur := map[string]string{}
@@ -344,7 +350,12 @@ func runFreshImpl(evs []any) []any {
 	seen := map[string][]int{} // versions a document went through
 	for _, e := range evs {
 		m := e.(map[string]any)
+		// document 0 is a file, document 1 an unsaved buffer (no path: the server takes other
+		// branches for it, e.g. no diagnostics task)
 		u := fmt.Sprintf("file:///hlverif-fresh/d%d.journal", toInt(m["u"]))
+		if toInt(m["u"])%2 == 1 {
+			u = fmt.Sprintf("untitled:Untitled-%d", toInt(m["u"]))
+		}
 		switch m["k"] {
 		case "change":
 			v := toInt(m["v"])
